@@ -126,6 +126,7 @@ def dispatch : List String → String
     else if checkTrace (evs.filterMap id) then "exclusive" else "shared"
   | ["rest_rt", h] => runRestRT h
   | ["rest_out", h] => runRestOut h
+  | ["rest_out_cut", h] => runRestOutCut h
   | ["rest_in", h] => runRestIn h
   | ["rest_http", h] => runRestIn h
   | ["schema_tables", h] => runConfig h
